@@ -1099,10 +1099,10 @@ def run_shard(shard):
         for case in shard["cases"]:
             acc.evaluation()
             try:
-                with time_limit(120):
+                with time_limit(600):
                     res = run_case(case, tmpdir)
             except CaseTimeout:
-                acc.violation(f"case|timeout|{config_feature(case)}", "case exceeded 120 s", case)
+                acc.violation(f"case|timeout|{config_feature(case)}", "case exceeded 600 s of CPU time", case)
                 acc.outcome("timeout")
                 continue
             if res["nontrivial"]:
